@@ -93,6 +93,13 @@ func main() {
 		}
 		return
 	}
+	if *dumpfn == "COPIERS" {
+		w := loadWorld(*repo)
+		for _, pc := range partialCopies(w.RepoFuncs("compose", "schema", "internal", "flow", "callbacks", "components", "utils")) {
+			fmt.Printf("%s | %s | copied=%v | missing=%v | %s\n", w.fname(origin(pc.fn)), pc.typ.Obj().Name(), pc.copied, pc.missing, w.pos(pc.at.Pos()))
+		}
+		return
+	}
 	if *dumpfn == "LIST" {
 		w := loadWorld(*repo)
 		for _, f := range w.RepoFuncs() {
